@@ -11,6 +11,9 @@
 package main
 
 import (
+	"github.com/thushan/olla/internal/zz_verif/stack"
+	"github.com/thushan/olla/internal/adapter/proxy/olla"
+	"strings"
 	"bufio"
 	"bytes"
 	"encoding/json"
@@ -307,6 +310,35 @@ func judge(scs []*timing.Scenario, obs []*timing.Obs) []verdict {
 
 func bad(v verdict) bool { return !v.Agree || !v.Spec }
 
+// uptimeCase: the backend sends the first events of a stream, pauses, and sends the rest; during the pause `idleMin`
+// minutes pass without a new request (simulated) and the olla engine's clean-up pass runs.  The client stays to the end:
+// "a completed stream is delivered whole".
+func uptimeCase(engine string, idleMin int) map[string]any {
+	be := stack.NewBackend("U")
+	defer be.Close()
+	var body bytes.Buffer
+	for i := 0; i < 40; i++ {
+		fmt.Fprintf(&body, "data: event-%03d %s\n\n", i, strings.Repeat("u", 20))
+	}
+	be.SetBehaviour(stack.Behaviour{Kind: "pause", Status: 200, Headers: [][2]string{{"Content-Type", "text/event-stream"}}, Body: body.Bytes(), Chunked: true, K: 3 * 38, StallMs: 500, ChunkSz: 38})
+	s, err := stack.Start(stack.Opts{Vary: stack.VaryFor("c18.uptime", engine, idleMin), Engine: engine, Balancer: "priority", EPs: []stack.EP{{Name: "U", Type: "openai", Priority: 1, Backend: be}}})
+	if err != nil {
+		return map[string]any{"start_err": err.Error()}
+	}
+	defer s.Stop()
+	req := stack.Request("POST", "/olla/proxy/v1/chat/completions", s.Addr, [][2]string{{"Content-Type", "application/json"}}, []byte(`{"stream":true}`), false)
+	done := make(chan *stack.Resp, 1)
+	go func() { done <- stack.Do(s.Addr, req, 8*time.Second) }()
+	time.Sleep(200 * time.Millisecond) // the first events are out, the backend pauses
+	ran := false
+	if os, ok := s.Proxy.(*olla.Service); ok {
+		olla.VerifCleanupPassAfter(os, time.Duration(idleMin)*time.Minute)
+		ran = true
+	}
+	rp := <-done
+	return map[string]any{"pass_ran": ran, "status": rp.Status, "err": rp.Err, "got": len(rp.Body), "want": body.Len(), "whole": bytes.Equal(rp.Body, body.Bytes())}
+}
+
 func main() {
 	tier := vlib.Tier()
 	r := vlib.NewRng(vlib.Seed())
@@ -451,6 +483,14 @@ func main() {
 	}
 	for _, lk := range leaks {
 		c.Emit(map[string]any{"kind": "leak", "impl": lk})
+	}
+	// long uptime: a stream is in flight when the engine's periodic clean-up pass runs, minutes after the last request
+	// started on that endpoint (simulated: the pools' last-used stamps move into the past, then the pass runs once)
+	for _, engine := range engines {
+		for _, idle := range []int{6, 61} {
+			c.Emit(map[string]any{"kind": "uptime", "engine": engine, "idle_min": idle, "impl": uptimeCase(engine, idle)})
+			c.Count("uptime." + engine)
+		}
 	}
 	// long-lived engine instances: client aborts mid-flow, then complete streams on the same instance
 	rounds := 40
